@@ -531,6 +531,29 @@ func c07FamilyLinks(p *load.Prog, r *oblig.Run) {
 					}
 				}
 			}
+			if !okCall && cal != nil && p.IsRepoFunc(cal) && len(cal.Blocks) > 0 && cal != fl {
+				// a helper that is handed the current family (filteredFamily(node, entityMap, document, current)): every
+				// value it returns is walked; its own family parameter stands for the enclosing call's family
+				var hp *ssa.Parameter
+				for i, a := range x.Call.Args {
+					if a == ssa.Value(famParam) && i < len(cal.Params) {
+						hp = cal.Params[i]
+					}
+				}
+				if hp != nil {
+					okCall = true
+					saved := famParam
+					famParam = hp
+					for _, b := range cal.Blocks {
+						if ret, isRet := b.Instrs[len(b.Instrs)-1].(*ssa.Return); isRet {
+							for _, rv := range ret.Results {
+								walk(rv, d+1)
+							}
+						}
+					}
+					famParam = saved
+				}
+			}
 			if !okCall && bad == "" {
 				bad = "the result of " + x.Call.String()
 			}
